@@ -119,8 +119,8 @@ pub fn gdt_null_table<const MAX: usize>() -> (r: [Entry; MAX])
 
 //@ fn src/structures/gdt.rs | impl<const MAX: usize> GlobalDescriptorTable<MAX> | append
 //@ obligation C14 C14.Gdt_append.appends_in_order_selector_matches_or_panics_unchanged
-//@ sub /panic!\("GDT full"\)/ => { proof { assert(self.len == old(self).len && self.table == old(self).table); } panic!("GDT full") }
-//@ sub /panic!\("GDT requires two free spaces to hold a SystemSegment"\)/ => { proof { assert(self.len == old(self).len && self.table == old(self).table); } panic!("GDT requires two free spaces") }
+//@ sub? /panic!\("GDT full"\)/ => { proof { assert(self.len == old(self).len && self.table == old(self).table); } panic!("GDT full") }
+//@ sub? /panic!\("GDT requires two free spaces to hold a SystemSegment"\)/ => { proof { assert(self.len == old(self).len && self.table == old(self).table); } panic!("GDT requires two free spaces") }
 //@ A
     requires wf_gdt(*old(self)), old(self).len + desc_words(entry).len() <= MAX,
     ensures
